@@ -6,6 +6,7 @@
 //                                                               -> p=<p'> args=<hex>,<hex>,... tail=<hex>
 //   r <hex input>       scan_raw('"') on the input stream       -> str=<hex> rest=<hex> closed=<0|1>
 //   l <hex line>        show_line on a file holding the line    -> <hex of the echoed line>
+//   q <hex text>        CPPManifest::stringify(text)            -> <hex of the string literal>
 // A std::out_of_range escaping from the code under test prints THROW.
 #include <iostream>
 #include <sstream>
@@ -86,6 +87,9 @@ int main(int argc, char **argv) {
         CPPManifest m(parser, unhex(rest), loc);
         dump(m._expansion, cout);
         cout << "\n";
+
+      } else if (mode == 'q') {
+        cout << hex(CPPManifest::stringify(unhex(rest))) << "\n";
 
       } else if (mode == 'x') {
         size_t sp = rest.find(' ');
